@@ -188,8 +188,9 @@ class StmtMixin:
             cell = self.path.cell(base)
             if isinstance(cell, DictCell):
                 key = self.dict_key(cell, idx)
-                if key not in cell.d:
+                if key.__class__.__name__ == "_Missing" or key not in cell.d:
                     raise PyRaise(ExcV(KeyError, (idx,)))
+                cell.d = dict(cell.d)
                 del cell.d[key]
                 return
             if isinstance(cell, MapCell):
@@ -298,7 +299,12 @@ class StmtMixin:
             if isinstance(cell, DictCell):
                 key = self.dict_key(cell, idx)
                 if key is not None and key.__class__.__name__ == "_Missing":
-                    raise Unsupported("store of symbolic key into concrete dict")
+                    from .values import SymKey
+                    if isinstance(idx, Sym):
+                        key = SymKey(idx)          # a new entry under a symbolic key (it differs from every stored key on this path)
+                    else:
+                        key = self.hashable_key(idx)
+                cell.d = dict(cell.d)
                 cell.d[key] = v
                 return
             if isinstance(cell, MapCell):
@@ -529,7 +535,7 @@ class StmtMixin:
         if isinstance(it, Ref):
             cell = self.path.cell(it)
             if isinstance(cell, DictCell):
-                return list(cell.d.keys())
+                return [k.sym if k.__class__.__name__ == "SymKey" else k for k in cell.d.keys()]
             if isinstance(cell, ObjCell):
                 m = self.find_method(cell.cls, "__iter__")
                 if m is None:
